@@ -89,6 +89,7 @@ func (s *Shared) c13Cases(tier string) []SchedCase {
 	if tier == "thorough" {
 		bound = &two
 	}
+	secondary := tier != "thorough" && s.W.Config != "default"
 	add := func(op Op, extraPlans []Plan) {
 		if seen[op.Text] {
 			return
@@ -100,13 +101,22 @@ func (s *Shared) c13Cases(tier string) []SchedCase {
 		}
 		plans := s.Plans(doc, op, d, false, false)
 		plans = append(plans, extraPlans...)
+		b := bound
+		if secondary {
+			// the second quick configuration: the fault-free plan and the hand-picked failures, one deviation
+			plans = append([]Plan{{}}, extraPlans...)
+			b = &one
+		}
 		for _, p := range plans {
-			out = append(out, SchedCase{Case: Case{Op: op, Plan: p, Yield: true}, Name: op.Text + " | " + p.Key(), Bound: bound})
+			out = append(out, SchedCase{Case: Case{Op: op, Plan: p, Yield: true}, Name: op.Text + " | " + p.Key(), Bound: b})
 		}
 	}
 	cfg := GenCfg{Schema: s.Schema, Root: "Query", Fields: deferFields, Conds: deferConds, MaxNodes: n, Spreads: true,
 		RequireFragment: true, DeferVariants: variants, DeferSubsets: true}
-	Enumerate(cfg, func(op Op) { add(op, nil) })
+	// (the second quick configuration, follow-schema, runs the hand-written corpus only)
+	if tier == "thorough" || s.W.Config == "default" {
+		Enumerate(cfg, func(op Op) { add(op, nil) })
+	}
 	// hand-written deeper shapes: nested groups, groups inside lists, a slow sibling in the
 	// outer group, failures inside and outside groups
 	bound = &two
@@ -121,6 +131,10 @@ func (s *Shared) c13Cases(tier string) []SchedCase {
 		`{t{... @defer{name} id ... @defer{req}}}`,
 		`{t{... @defer(label:"A"){name} ... @defer(label:"B"){req} ... @defer(label:"A"){kid{id}}}}`,
 		`{ts{... @defer(label:"A"){name} id ... @defer(label:"A"){req}}}`,
+		// the same object-valued key outside the fragment and, with MORE sub-fields, inside it
+		`{t{kid{id} ... @defer{kid{name}}}}`,
+		`{t{kidsReq{id} ... @defer(label:"x"){kidsReq{name}}}}`,
+		`{t{kid{id} ...F @defer}} fragment F on T{kid{req} name}`,
 		// the deferred fragment comes FIRST and holds non-null fields
 		`{t{... @defer{req} id name}}`,
 		`{t{... @defer{kidsReq{id}} id}}`,
